@@ -296,8 +296,8 @@ def T2(ctx, rule="T2"):
         ctx.check(ok, rule, "join|%s" % e["name"], where,
                   "the queuer future and the scheduler block are driven together by one `join!`", why)
     ctx.counts[rule] = n
-    if n < 8:
-        ctx.unverifiable(rule, "floor", "-", "expected >= 8 joined entry points, found %d" % n)
+    if n < 1:
+        ctx.unverifiable(rule, "floor", "-", "no non-stream entry point found")
 
 
 # ---------------------------------------------------------------------------
